@@ -5,7 +5,7 @@ package funcGen
 // Verification hooks for the generic generator (add-only, compiled only with -tags verif).
 
 // VerifOperators returns a copy of the binary operators in priority order (lowest first).
-func (g *FunctionGenerator[V]) VerifOperators() []Operator[V] {
+func (g *FunctionGenerator[V]) VerifGenericOperators() []Operator[V] {
 	return append([]Operator[V]{}, g.operators...)
 }
 
